@@ -53,7 +53,9 @@ func VerifResetWire() {
 	VerifServed, VerifEncoded = nil, nil
 	VerifReplyMultiStatus, VerifReply = nil, nil
 	VerifRequestBody, VerifRequestBodyErr = nil, false
+	VerifRequestBodyRepairable = false
 	VerifRawDecodeBad = nil
+	VerifBodyEmpty = false
 }
 
 func verifStubNewXMLRequest(c *Client, method string, path string, v interface{}) (*http.Request, error) {
@@ -128,6 +130,57 @@ func verifStubDecodeXMLRequest(r *http.Request, v interface{}) error {
 		return nil
 	}
 	return &HTTPError{http.StatusBadRequest, io.ErrUnexpectedEOF}
+}
+
+// VerifRequestBodyRepairable: the request body is not well-formed XML, but
+// in a way a decoder with Strict == false repairs (encoding/xml documents
+// which: missing end tags, unquoted attribute values, unknown entities); it
+// then reads VerifRequestBody. Natively: an unquoted attribute value.
+var VerifRequestBodyRepairable bool
+
+// verifStubXMLDecodeRequest stands for (*xml.Decoder).Decode when the real
+// DecodeXMLRequest runs: the decoder it is called on is the one the
+// implementation configured.
+func verifStubXMLDecodeRequest(d *xml.Decoder, v interface{}) error {
+	if VerifRequestBodyErr && !(VerifRequestBodyRepairable && !d.Strict) {
+		return io.ErrUnexpectedEOF
+	}
+	if VerifRequestBody == nil {
+		return io.ErrUnexpectedEOF
+	}
+	if pf, ok := v.(*PropFind); ok {
+		if src, ok := VerifRequestBody.(*PropFind); ok {
+			*pf = *src
+			return nil
+		}
+	}
+	if pu, ok := v.(*PropertyUpdate); ok {
+		if src, ok := VerifRequestBody.(*PropertyUpdate); ok {
+			*pu = *src
+			return nil
+		}
+	}
+	if VerifCopyHook != nil && VerifCopyHook(v, VerifRequestBody) {
+		return nil
+	}
+	return io.ErrUnexpectedEOF
+}
+
+// VerifUnquoteFirstAttr makes a marshalled document not well-formed in a
+// repairable way: the first attribute value loses its quotes (native only).
+func VerifUnquoteFirstAttr(b []byte) []byte {
+	i := bytes.Index(b, []byte("=\""))
+	if i < 0 {
+		return []byte("<broken")
+	}
+	j := bytes.IndexByte(b[i+2:], '"')
+	if j < 0 {
+		return []byte("<broken")
+	}
+	out := append([]byte{}, b[:i+1]...)
+	out = append(out, b[i+2:i+2+j]...)
+	out = append(out, b[i+2+j+1:]...)
+	return out
 }
 
 func verifStubServeMultiStatus(w http.ResponseWriter, ms *MultiStatus) error {
@@ -457,9 +510,11 @@ func verifStatusOverWire(s *Status) (*Status, error) {
 // RFC's definition of the element, written down here independently.
 
 type VerifShapeSpec struct {
-	Path  string // element path, names as "P:local" with P a key of the namespace table
-	Items string // attributes and children the RFC defines (blank separated, any order)
-	Order string // blank separated chains "a<b<c": the DTD puts these children in sequence
+	Path     string // element path, names as "P:local" with P a key of the namespace table
+	Items    string // attributes and children the wire format must have (blank separated, any order)
+	Optional string // further attributes and children the RFC defines: allowed, not required
+	Order    string // blank separated chains "a<b<c": the DTD puts these children in sequence
+	MayMiss  bool   // the element itself is one the RFC defines but the library need not map
 }
 
 func verifExpandName(ns map[string]string, n string) string {
@@ -507,6 +562,9 @@ func VerifCheckShape(shape string, ns map[string]string, specs []VerifShapeSpec,
 		path := strings.Join(segs, "/")
 		known[path] = true
 		got, ok := lines[path]
+		if !ok && sp.MayMiss {
+			continue
+		}
 		vrt.Assert(ok, what+": element "+sp.Path+" is part of the wire format")
 		if !ok {
 			continue
@@ -515,9 +573,20 @@ func VerifCheckShape(shape string, ns map[string]string, specs []VerifShapeSpec,
 		for _, it := range strings.Fields(sp.Items) {
 			want[verifExpandName(ns, it)] = true
 		}
-		same := len(got) == len(want)
+		optional := map[string]bool{}
+		for _, it := range strings.Fields(sp.Optional) {
+			optional[verifExpandName(ns, it)] = true
+		}
+		same := true
+		seen := map[string]bool{}
 		for _, g := range got {
-			if !want[g] {
+			if !want[g] && !optional[g] {
+				same = false
+			}
+			seen[g] = true
+		}
+		for w := range want {
+			if !seen[w] {
 				same = false
 			}
 		}
